@@ -314,6 +314,9 @@ var failKinds = []failKind{
 	{"continue-in-other-context", `{{range .L}}<b>{{.}}</b><script>{{if $.S}}{{continue}}{{end}}var r = 1;</script>{{end}}`},
 	{"break-in-attribute", `{{range .L}}<a title="{{if $.S}}{{break}}{{end}}x">{{.}}</a>{{end}}`},
 	{"else-if-chain-attribute-names", `<a {{if .N}}title{{else if .S}}title{{else}}href{{end}}="{{.S}}">x</a>`},
+	{"unsafe-prefix-before-shared-callee", `<a href="/ok?{{template "v" .}}">a</a><a href="javascript:{{template "v" .}}">b</a>`},
+	{"scheme-part-before-shared-callee", `<a href="/ok/{{template "v" .}}">a</a><a href="java{{template "v" .}}">b</a>`},
+	{"ambiguous-prefix-before-shared-callee", `<a href="/ok?{{template "v" .}}">a</a><a href="{{if .S}}javascript:{{else}}/p?{{end}}{{template "v" .}}">b</a>`},
 	{"else-if-chain-attribute-names-2", `<a {{if .N}}title{{else if .S}}href{{else}}title{{end}}="{{.S}}">x</a>`},
 }
 
@@ -324,7 +327,7 @@ func c05Scenario(k failKind) *hist.Scenario {
 		Init: `{{define "bad"}}{{mark "bad"}}BAD` + k.bad + `{{end}}` +
 			`{{define "cb"}}{{mark "cb"}}<p>CB{{template "bad" .}}</p>{{end}}` +
 			`{{define "ccb"}}{{mark "ccb"}}<i>CCB{{template "cb" .}}</i>{{end}}` +
-			`{{define "good"}}<b>{{.S}}</b>{{end}}{{define "li"}}<li title="{{.}}{{end}}` +
+			`{{define "good"}}<b>{{.S}}</b>{{end}}{{define "li"}}<li title="{{.}}{{end}}{{define "v"}}{{.S}}{{end}}` +
 			`{{define "bad2"}}{{template "bad" .}}{{end}}{{define "bad3"}}x{{template "bad2" .}}{{end}}` +
 			`{{define "rt"}}<em>partial</em><script src="{{.S}}"></script>{{end}}` +
 			`{{define "fix"}}{{mark "fix"}}{{template "bad" .}}x">ok</a>{{end}}` +
